@@ -34,6 +34,8 @@ def plan(tier, seed):
         specs.append({'kind': 'segments', 'version': v, 'n': n})
         specs.append({'kind': 'messages', 'version': v, 'n': n // 10})
         specs.append({'kind': 'histories', 'version': v, 'n': n // 4})
+    for v in tables.versions():
+        specs.append({'kind': 'dupnames', 'version': v})
     specs.append({'kind': 'refusals'})
     return specs
 
@@ -90,16 +92,20 @@ def compare(strict_thunk, tolerant_thunk, rec, case, sig):
         rec.violation('tolerant-rejects-what-strict-accepts:%s' % type(e).__name__, case, {'exc': repr(e)[:200]})
         return
     ea, eb = a.to_er7(), b.to_er7()
+    reordered = False
     if ea != eb:
-        rec.violation(classify_enc(case, ea, eb), case, {'strict': ea[:300], 'tolerant': eb[:300]})
-        return
+        cause = classify_enc(case, ea, eb)
+        rec.violation(cause, case, {'strict': ea[:300], 'tolerant': eb[:300]})
+        if cause != 'group-children-order-differs-by-level':
+            return
+        reordered = True      # the documented order difference must not hide what the validator says
     try:
         ra, rb = report(a), report(b)
     except Exception as e:
         rec.count('validate_crashed')
         return
     rec.count('reports_compared')
-    if ra != rb:
+    if ra != rb and not reordered:
         rec.violation('validation-report-differs-by-level', case, {'strict': str(ra)[:300], 'tolerant': str(rb)[:300]})
         return
     other = [e for e in ra[0] if not e.startswith('Missing required child')]
@@ -167,6 +173,38 @@ def run_messages(spec, rec):
             compare(lambda: parser.parse_message(text, validation_level=1, find_groups=fg),
                     lambda: parser.parse_message(text, validation_level=2, find_groups=fg), rec, case,
                     ('msg', v, fg, text))
+
+
+def run_dupnames(spec, rec):
+    """structures that list one child name at two places (with possibly different cardinalities): instances holding the
+    name once per place, and doubled, must get the same treatment from STRICT admission and from the validator"""
+    from hl7apy import parser
+    from . import c04
+    v = spec['version']
+    msgs = tables.messages(v)
+    for name in sorted(msgs):
+        node = msgs[name]
+        if not structref.usable(v, node) or not structref.msh9_for(v, name):
+            continue
+        dups = c04.duplicate_names(node)
+        if not dups:
+            continue
+        rec.count('duplicate_name_structures')
+        for mode, double in (('required', False), ('all', False), ('all', True)):
+            lines = structref.emit(node, None, mode, 1)
+            out = []
+            for l in lines:
+                t = structref.conforming_msh(v, name) if l.seg == 'MSH' else \
+                    structref.conforming_segment_line(v, l.seg, 'required')
+                out.append(t)
+                if double and l.seg in dups and l.seg != 'MSH':
+                    out.append(t)
+            text = '\r'.join(out)
+            for fg in (True, False):
+                case = {'kind': 'message', 'version': v, 'text': text, 'find_groups': fg}
+                compare(lambda: parser.parse_message(text, validation_level=1, find_groups=fg),
+                        lambda: parser.parse_message(text, validation_level=2, find_groups=fg), rec, case,
+                        ('dup', v, name, mode, double, fg))
 
 
 def run_histories(spec, rec):
@@ -250,7 +288,7 @@ def run_refusals(spec, rec):
 
 
 def run_shard(spec, rec):
-    {'segments': run_segments, 'messages': run_messages, 'histories': run_histories,
+    {'segments': run_segments, 'messages': run_messages, 'histories': run_histories, 'dupnames': run_dupnames,
      'refusals': run_refusals}[spec['kind']](spec, rec)
 
 
